@@ -186,12 +186,69 @@ fn c11_one<S: Shredder>(name: &'static str) -> (bool, serde_json::Value) {
     (distinct > 0, json!({"shredder": name, "data_len": len, "limit": max_data, "with_parent": with_parent, "arrivals": order.len(), "distinct": distinct, "reconstructed": reconstructed}))
 }
 
+/// Decoding errors beyond "too few shreds": the receiver runs a different, layout-compatible
+/// shredder than the leader (32 data + 32 coding shreds both), so erasure decoding and the Merkle
+/// check succeed but the recovered bytes are not a valid slice payload. Whatever error results,
+/// the supplied shreds must be left untouched.
+fn c11_cross<S: Shredder, R: Shredder>(name: &'static str) -> (bool, serde_json::Value) {
+    let kp = keys::keypair(kernel::choose(G, 4) as usize);
+    let with_parent = kernel::choose(G, 2) == 1;
+    let parent: Option<BlockId> = if with_parent { Some((Slot::new(kernel::choose(G, 50)), wire::synth_hash(1, 1))) } else { None };
+    let len = kernel::choose(G, 3000) as usize;
+    let slice = Slice {
+        slot: Slot::new(1 + kernel::choose(G, 100)),
+        slice_index: si(kernel::choose(G, 1024) as usize),
+        is_last: kernel::choose(G, 2) == 1,
+        parent,
+        data: (0..len).map(|i| (i as u8).wrapping_mul(17)).collect(),
+    };
+    let Ok(shreds) = S::default().shred(&slice, &kp.sk) else { return (false, json!(null)) };
+    let keep = 32 + kernel::choose(N, 33) as usize;
+    let mut order: Vec<usize> = (0..TOTAL_SHREDS).collect();
+    for i in (1..order.len()).rev() {
+        let j = i - kernel::choose(N, (i + 1) as u64) as usize;
+        order.swap(i, j);
+    }
+    let mut arr: [Option<ValidatedShred>; TOTAL_SHREDS] = [const { None }; TOTAL_SHREDS];
+    for idx in order.iter().take(keep) {
+        arr[*idx] = Some(shreds[*idx].clone());
+    }
+    kernel::fault("loss");
+    kernel::fault("reordering");
+    let before: Vec<Option<Vec<u8>>> = arr.iter().map(|s| s.as_ref().map(|s| wire::shred_bytes(s.as_shred()))).collect();
+    let res = std::panic::catch_unwind(std::panic::AssertUnwindSafe(|| R::default().deshred(&mut arr)));
+    kernel::event_nt(&format!("c11 cross {name} len={len} keep={keep}"));
+    match res {
+        Err(_) => {
+            let ps = kernel::take_panics();
+            kernel::violation("C11", format!("panic:{name}"), format!("{name}: deshred panicked: {:?}", ps.last().map(|p| &p.message)));
+        }
+        Ok(Ok(_)) => kernel::probe("c11_cross_shredder_decoded"),
+        Ok(Err(e)) => {
+            kernel::probe("c11_cross_shredder_errors");
+            let after: Vec<Option<Vec<u8>>> = arr.iter().map(|s| s.as_ref().map(|s| wire::shred_bytes(s.as_shred()))).collect();
+            if after != before {
+                let filled = after.iter().filter(|x| x.is_some()).count();
+                kernel::violation(
+                    "C11",
+                    format!("error-mutated-input:{name}"),
+                    format!("{name}: deshred returned {e:?} but changed the supplied shreds ({keep} present before, {filled} after)"),
+                );
+            }
+        }
+    }
+    kernel::fingerprint(&format!("{name}:{len}:{keep}"));
+    (true, json!({"mode": name, "data_len": len, "present": keep}))
+}
+
 pub fn c11_run() -> WorldOutcome {
-    let (nt, sample) = match kernel::choose(G, 4) {
-        0 => c11_one::<RegularShredder>("regular"),
-        1 => c11_one::<CodingOnlyShredder>("coding_only"),
-        2 => c11_one::<AontShredder>("aont"),
-        _ => c11_one::<PetsShredder>("pets"),
+    let (nt, sample) = match kernel::choose(G, 10) {
+        0 | 1 => c11_one::<RegularShredder>("regular"),
+        2 | 3 => c11_one::<CodingOnlyShredder>("coding_only"),
+        4 | 5 => c11_one::<AontShredder>("aont"),
+        6 | 7 => c11_one::<PetsShredder>("pets"),
+        8 => c11_cross::<AontShredder, RegularShredder>("aont-read-as-regular"),
+        _ => c11_cross::<RegularShredder, AontShredder>("regular-read-as-aont"),
     };
     WorldOutcome { nontrivial: nt, sample, virt_ms: 0 }
 }
